@@ -101,6 +101,21 @@ pub mod k {
     pub const LINK_MTU_AT: i128 = 66; // time at which link mtu changes
     pub const LINK_MTU2: i128 = 67;
     pub const DROP_MASK_DIR: i128 = 68; // 0 both, 1 only client->server, 2 only server->client
+    pub const FAIR_RUN: i128 = 69; // >0: at most this many consecutive random drops per direction
+    pub const SERVER_EARLY: i128 = 71; // server application opens/writes its own streams before Connected (0.5-RTT data)
+    pub const HOSTILE_AT: i128 = 72; // us: one endpoint's connection 0.. injects hostile authenticated frames once
+    pub const HOSTILE_KIND: i128 = 73; // catalogue entry (see hostile_frames)
+    pub const HOSTILE_SIDE: i128 = 74; // which endpoint misbehaves (0 client, 1 server)
+    pub const READ_SERIAL: i128 = 75; // reader consumes one stream at a time (lowest id first), the others wait
+    pub const PAD_TO_MTU: i128 = 76;
+    pub const DGRAM_INTERVAL: i128 = 77; // us between application datagrams (0 = all at once)
+    pub const DGRAM_ALT: i128 = 78; // odd-numbered datagrams are small (100 bytes)
+    pub const EARLY_STOP: i128 = 79; // client stops the receive half of each bidi stream right after opening it
+    pub const NO_REDO: i128 = 80; // after a 0-RTT rejection the client does not repeat its workload
+    pub const HOSTILE_TP: i128 = 82; // >0: catalogue entry of hostile_tp::mutate applied to the peer's transport parameters as seen by the victim
+    pub const HOSTILE_TP_SIDE: i128 = 83; // victim endpoint (0 client, 1 server); pair 0 (or the first real pair of a 0-RTT scenario) is attacked
+    pub const DGRAM_START: i128 = 81; // us: application datagrams are not sent before this instant
+    pub const RECONNECT: i128 = 70; // open this many further client connections, one per drained connection (slot reuse)
 }
 
 pub struct Rng(u64);
@@ -246,6 +261,11 @@ struct App {
     p_dgram_unblocked: bool,
     p_readable: Vec<StreamId>,
     p_writable: Vec<StreamId>,
+    next_read_at: u64,
+    next_dgram_at: u64,
+    dgram_wake_set: bool,
+    pending_stops: Vec<(u64, StreamId)>,
+    hold_close_until: u64,
 }
 
 struct ConnSt {
@@ -297,6 +317,10 @@ pub struct World {
     conn_counter: usize,
     steps: u64,
     accepted_pairs: Vec<usize>,
+    drop_run: [i128; 2],
+    injected: u64,
+    app_wakes: Vec<u64>,
+    tp: Option<Arc<crate::hostile_tp::TpShared>>,
 }
 
 fn ecn_code(e: Option<EcnCodepoint>) -> i128 {
@@ -411,6 +435,9 @@ impl World {
         let drb = p.get(k::DGRAM_RECV_BUF, 65536);
         t.datagram_receive_buffer_size(if drb < 0 { None } else { Some(drb as usize) });
         t.datagram_send_buffer_size(p.get(k::DGRAM_SEND_BUF, 65536) as usize);
+        if p.get(k::PAD_TO_MTU, 0) > 0 {
+            t.pad_to_mtu(true);
+        }
         if p.get(k::PACING_BPS, 0) > 0 {
             t.max_outgoing_bytes_per_second(Some(p.get(k::PACING_BPS, 0) as u64));
         }
@@ -441,6 +468,10 @@ impl World {
             conn_counter: 0,
             steps: 0,
             accepted_pairs: Vec::new(),
+            drop_run: [0, 0],
+            injected: 0,
+            app_wakes: Vec::new(),
+            tp: None,
             p,
         };
         let (cert, key) = load_cert();
@@ -455,10 +486,38 @@ impl World {
         }));
         let tk = quinn_proto_token_key(seed);
         scfg.token_key(tk);
+        let tp_kind = w.p.get(k::HOSTILE_TP, 0);
+        if tp_kind > 0 {
+            let victim = w.p.get(k::HOSTILE_TP_SIDE, 0).clamp(0, 1);
+            let target = if w.p.get(k::ZERO_RTT, 0) > 0 { 1 } else { 0 };
+            let sh = Arc::new(crate::hostile_tp::TpShared {
+                kind: tp_kind,
+                seed,
+                target_idx: target,
+                cur_idx: std::sync::atomic::AtomicI64::new(-1),
+                epoch: std::sync::atomic::AtomicI64::new(0),
+                log: Mutex::new(Vec::new()),
+            });
+            scfg.crypto = Arc::new(crate::hostile_tp::HServer { inner: scfg.crypto.clone(), m: sh.clone(), attack: victim == 1 });
+            w.tp = Some(sh);
+        }
         let scfg = Arc::new(scfg);
         let mut roots = quinn_proto::rustls::RootCertStore::empty();
         roots.add(certd).unwrap();
-        let mut ccfg = ClientConfig::with_root_certificates(Arc::new(roots)).unwrap();
+        let mut ccfg = if let Some(sh) = &w.tp {
+            use quinn_proto::rustls;
+            let mut rc = rustls::ClientConfig::builder_with_provider(Arc::new(rustls::crypto::ring::default_provider()))
+                .with_protocol_versions(&[&rustls::version::TLS13])
+                .unwrap()
+                .with_root_certificates(roots)
+                .with_no_client_auth();
+            rc.enable_early_data = true;
+            let q = quinn_proto::crypto::rustls::QuicClientConfig::try_from(rc).unwrap();
+            let victim = w.p.get(k::HOSTILE_TP_SIDE, 0).clamp(0, 1);
+            ClientConfig::new(Arc::new(crate::hostile_tp::HClient { inner: Arc::new(q), m: sh.clone(), attack: victim == 0 }))
+        } else {
+            ClientConfig::with_root_certificates(Arc::new(roots)).unwrap()
+        };
         ccfg.transport_config(Arc::new(w.transport(false)));
         w.client_cfg = Some(ccfg);
         w.server_cfg = Some(scfg.clone());
@@ -519,6 +578,11 @@ impl World {
             p_dgram_unblocked: false,
             p_readable: Vec::new(),
             p_writable: Vec::new(),
+            next_read_at: 0,
+            next_dgram_at: 0,
+            dgram_wake_set: false,
+            pending_stops: Vec::new(),
+            hold_close_until: 0,
         }
     }
 
@@ -531,7 +595,19 @@ impl World {
         // the pair identity travels in the client-chosen initial DCID
         let seedb = self.p.get(k::SEED, 1) as u8;
         cfg.initial_dst_cid_provider(Arc::new(move || ConnectionId::new(&[0xD0, idx as u8, seedb, 2, 3, 4, 5, 6])));
+        if let Some(sh) = &self.tp {
+            sh.cur_idx.store(idx as i64, std::sync::atomic::Ordering::SeqCst);
+        }
         let (ch, conn) = self.eps[0].ep.connect(now, cfg, saddr, "localhost").unwrap();
+        if let Some(sh) = &self.tp {
+            // outcomes logged inside connect concern the parameters remembered with the session
+            // ticket (0-RTT): informational WORLD record 10, not an expectation
+            let l: Vec<_> = sh.log.lock().unwrap().drain(..).collect();
+            for (side, i, kind, ok) in l {
+                self.trace.push(vec![13, self.now as i128, 10, side, i, kind, ok]);
+            }
+            sh.epoch.fetch_add(1, std::sync::atomic::Ordering::SeqCst);
+        }
         let mut app = self.new_app(true, idx);
         if warmup {
             app.warmup = true;
@@ -581,13 +657,23 @@ impl World {
             self.trace.push(vec![9, t, idx as i128, 4, sid, did, size]);
             return;
         }
-        if self.rng.chance(replay + spoof) && self.stored.len() < 64 {
+        let garbage = p.get(k::GARBAGE, 0);
+        if self.rng.chance((replay + spoof + garbage).min(500)) && self.stored.len() < 64 {
             self.stored.push((src, dst, data.clone(), origin));
         }
-        if masked || self.rng.chance(loss) {
+        let fair = self.p.get(k::FAIR_RUN, 0);
+        let mut lose = self.rng.chance(loss);
+        if lose && fair > 0 && self.drop_run[src_ep.min(1)] >= fair {
+            lose = false; // fair loss: never more than `fair` random drops in a row per direction
+        }
+        if masked || lose {
+            if lose {
+                self.drop_run[src_ep.min(1)] += 1;
+            }
             self.trace.push(vec![9, t, idx as i128, 1, sid, did, size]);
             return;
         }
+        self.drop_run[src_ep.min(1)] = 0;
         let mut copies = 1;
         if dupmask || self.rng.chance(dup) {
             copies = 2 + self.rng.below(2);
@@ -608,6 +694,10 @@ impl World {
     }
 
     fn attacker_inject(&mut self) {
+        // bounded attacker: at most 400 injected datagrams per run (each one causes a wake-up)
+        if self.injected >= 400 {
+            return;
+        }
         let p = &self.p;
         let replay = p.get(k::REPLAY, 0);
         let spoof = p.get(k::SPOOF, 0);
@@ -618,6 +708,7 @@ impl World {
             self.seq += 1;
             let sid = self.addr_id(src);
             let did = self.addr_id(dst);
+            self.injected += 1;
             self.trace.push(vec![9, self.now as i128, -1, 5, sid, did, data.len() as i128]);
             self.net.push(Pkt { at: self.now + 1 + self.rng.below(5000), seq: self.seq, src, dst, ecn: None, data, origin, kind: 5 });
         }
@@ -628,12 +719,114 @@ impl World {
             self.seq += 1;
             let sid = self.addr_id(src);
             let did = self.addr_id(dst);
+            self.injected += 1;
             self.trace.push(vec![9, self.now as i128, -1, 6, sid, did, data.len() as i128]);
             self.net.push(Pkt { at: self.now + 1 + self.rng.below(5000), seq: self.seq, src, dst, ecn: None, data, origin, kind: 6 });
         }
         if self.rng.chance(garbage) {
             let mut data: Vec<u8>;
-            if !self.stored.is_empty() && self.rng.chance(600) {
+            let mut forged: Option<(SocketAddr, SocketAddr)> = None;
+            if !self.stored.is_empty() && self.rng.chance(250) {
+                // structure-aware forgeries built from the cleartext of a genuine long-header
+                // datagram: Version Negotiation, Retry with a bogus integrity tag, and a
+                // short-header datagram ending in a random "reset token"
+                let i = self.rng.below(self.stored.len() as u64) as usize;
+                let g = self.stored[i].2.clone();
+                let (gsrc, gdst) = (self.stored[i].0, self.stored[i].1);
+                let mut out: Vec<u8> = Vec::new();
+                if g.len() > 7 && g[0] & 0x80 != 0 {
+                    let dl = g[5] as usize;
+                    if 6 + dl < g.len() {
+                        let dcid = g[6..6 + dl].to_vec();
+                        let sl = g[6 + dl] as usize;
+                        if 7 + dl + sl <= g.len() {
+                            let scid = g[7 + dl..7 + dl + sl].to_vec();
+                            let is_initial = (g[0] >> 4) & 3 == 0;
+                            let pick = if is_initial { self.rng.below(4) } else { self.rng.below(2) };
+                            match pick {
+                                2 | 3 => {
+                                    // two coalesced bogus Initials in one datagram of the same size, sent
+                                    // from the genuine source: neither authenticates
+                                    let mut j = 7 + dl + sl;
+                                    let rd = |d: &[u8], j: usize| -> Option<(u64, usize)> {
+                                        if j >= d.len() {
+                                            return None;
+                                        }
+                                        let n = 1usize << (d[j] >> 6);
+                                        if j + n > d.len() {
+                                            return None;
+                                        }
+                                        let mut v = (d[j] & 0x3f) as u64;
+                                        for k in 1..n {
+                                            v = (v << 8) | d[j + k] as u64;
+                                        }
+                                        Some((v, n))
+                                    };
+                                    if let Some((tl, n)) = rd(&g, j) {
+                                        j += n + tl as usize;
+                                        if j < g.len() {
+                                            let hdr = g[..j].to_vec(); // up to (excluding) the Length field
+                                            let total = g.len().max(1200);
+                                            let first_payload = 30usize;
+                                            let mut a_pkt = hdr.clone();
+                                            put_var(&mut a_pkt, first_payload as u64);
+                                            for _ in 0..first_payload {
+                                                a_pkt.push(self.rng.below(256) as u8);
+                                            }
+                                            let mut b_pkt = hdr.clone();
+                                            let rest = total.saturating_sub(a_pkt.len() + hdr.len() + 2).max(40);
+                                            b_pkt.extend_from_slice(&((rest as u16) | 0x4000).to_be_bytes());
+                                            for _ in 0..rest {
+                                                b_pkt.push(self.rng.below(256) as u8);
+                                            }
+                                            out = a_pkt;
+                                            out.extend_from_slice(&b_pkt);
+                                            forged = Some((gsrc, gdst));
+                                        }
+                                    }
+                                }
+                                0 => {
+                                    // Version Negotiation towards the sender of `g`
+                                    out.push(0x80 | (self.rng.below(128) as u8));
+                                    out.extend_from_slice(&[0, 0, 0, 0]);
+                                    out.push(scid.len() as u8);
+                                    out.extend_from_slice(&scid);
+                                    out.push(dcid.len() as u8);
+                                    out.extend_from_slice(&dcid);
+                                    out.extend_from_slice(&[0x0a, 0x1a, 0x2a, 0x3a, 0xff, 0, 0, 0x1d]);
+                                }
+                                _ => {
+                                    // Retry towards the sender of `g` with a made-up tag
+                                    out.push(0xf0 | (self.rng.below(16) as u8));
+                                    out.extend_from_slice(&g[1..5]);
+                                    out.push(scid.len() as u8);
+                                    out.extend_from_slice(&scid);
+                                    out.push(8);
+                                    out.extend_from_slice(&[0xEE; 8]);
+                                    out.extend_from_slice(&[0x77; 24]);
+                                    for _ in 0..16 {
+                                        out.push(self.rng.below(256) as u8);
+                                    }
+                                }
+                            }
+                            if forged.is_none() {
+                                forged = Some((gdst, gsrc));
+                            }
+                        }
+                    }
+                } else if g.len() > 30 {
+                    // stateless-reset look-alike: keep the header byte and CID, random rest
+                    out.extend_from_slice(&g[..1 + 8.min(g.len() - 1)]);
+                    for _ in 0..(30 + self.rng.below(40)) {
+                        out.push(self.rng.below(256) as u8);
+                    }
+                    forged = Some((gsrc, gdst));
+                }
+                data = out;
+                if forged.is_none() {
+                    data = (0..40).map(|_| self.rng.below(256) as u8).collect();
+                }
+            } else if !self.stored.is_empty() && self.rng.chance(600) {
                 let i = self.rng.below(self.stored.len() as u64) as usize;
                 data = self.stored[i].2.clone();
                 match self.rng.below(4) {
@@ -668,7 +861,9 @@ impl World {
                 data = (0..n).map(|_| self.rng.below(256) as u8).collect();
             }
             let to_server = self.rng.chance(700);
-            let (src, dst) = if to_server {
+            let (src, dst) = if let Some(f) = forged {
+                f
+            } else if to_server {
                 (if self.rng.chance(500) { self.eps[0].addr } else { SocketAddr::new(IpAddr::V4(Ipv4Addr::new(10, 6, 6, 6)), 6666) }, self.eps[1].addr)
             } else {
                 (self.eps[1].addr, self.eps[0].addr)
@@ -676,6 +871,7 @@ impl World {
             self.seq += 1;
             let sid = self.addr_id(src);
             let did = self.addr_id(dst);
+            self.injected += 1;
             self.trace.push(vec![9, self.now as i128, -1, 7, sid, did, data.len() as i128]);
             self.net.push(Pkt { at: self.now + 1, seq: self.seq, src, dst, ecn: None, data, origin: -2, kind: 7 });
         }
@@ -753,14 +949,22 @@ impl World {
                 let prev_inc = self.accepted_pairs.iter().filter(|p| **p == pair_idx).count();
                 let new_idx = pair_idx + 1000 * prev_inc;
                 self.trace.push(vec![2, t, epi as i128, sid, size, 2, new_idx as i128, validated as i128, origin, kind, hflags]);
-                if self.p.get(k::RETRY, 0) != 0 && !validated && incoming.may_retry() {
+                let retry_mode = self.p.get(k::RETRY, 0);
+                // RETRY 1: retry unvalidated addresses; 2: retry whenever still possible (also when a
+                // NEW_TOKEN token already validated the address)
+                if ((retry_mode == 1 && !validated) || retry_mode == 2) && incoming.may_retry() {
                     let tr = self.eps[epi].ep.retry(incoming, &mut buf).unwrap();
                     let did_ = self.addr_id_of(tr.destination);
                     self.trace.push(vec![1, t, epi as i128, -1, did_, tr.size as i128, 0, 0, 1]);
                     let b = buf.clone();
                     self.put_on_wire(epi, &tr, &b, -1);
                 } else {
-                    match self.eps[epi].ep.accept(incoming, now, &mut buf, None) {
+                    if let Some(sh) = &self.tp {
+                        sh.cur_idx.store(new_idx as i64, std::sync::atomic::Ordering::SeqCst);
+                    }
+                    let accepted = self.eps[epi].ep.accept(incoming, now, &mut buf, None);
+                    self.drain_tp_log();
+                    match accepted {
                         Ok((ch, conn)) => {
                             // a replayed Initial may open a second attempt under the same pair
                             // identity: later incarnations get index pair + 1000 * k
@@ -777,7 +981,12 @@ impl World {
                             self.eps[epi].conns.insert(ch.0, ConnSt { conn, app, wake_at: None, last_deadline: None, drained: false, conn_index: idx });
                         }
                         Err(e) => {
-                            self.trace.push(vec![3, t, epi as i128, -1, 22, 0]);
+                            let (a, code) = match &e.cause {
+                                ConnectionError::TransportError(te) => (2, u64::from(te.code) as i128),
+                                ConnectionError::ConnectionClosed(cc) => (3, u64::from(cc.error_code) as i128),
+                                _ => (0, 0),
+                            };
+                            self.trace.push(vec![3, t, epi as i128, -1, 22, 0, a, code, new_idx as i128]);
                             if let Some(tr) = e.response {
                                 let did_ = self.addr_id_of(tr.destination);
                     self.trace.push(vec![1, t, epi as i128, -1, did_, tr.size as i128, 0, 0, 2]);
@@ -818,6 +1027,16 @@ impl World {
         let closer = self.p.get(k::CLOSER, 0);
         let close_at = self.p.get(k::CLOSE_AT, 0);
         let zero_rtt = self.p.get(k::ZERO_RTT, 0);
+        let self_server_early = self.p.get(k::SERVER_EARLY, 0) != 0;
+        let read_serial = self.p.get(k::READ_SERIAL, 0) as u64;
+        let early_stop = self.p.get(k::EARLY_STOP, 0) as u64;
+        let no_redo = self.p.get(k::NO_REDO, 0) != 0;
+        let dgram_interval = self.p.get(k::DGRAM_INTERVAL, 0) as u64;
+        let dgram_alt = self.p.get(k::DGRAM_ALT, 0);
+        let dgram_total = self.p.get(k::NDGRAM, 0) as u64;
+        let dgram_start = self.p.get(k::DGRAM_START, 0) as u64;
+        let now_us = self.now;
+        let mut new_app_wake: Option<u64> = None;
         let self_nbidi = self.p.get(k::NBIDI, 1) as u64;
         let self_nuni = self.p.get(k::NUNI, 0) as u64;
         let self_ndgram = self.p.get(k::NDGRAM, 0) as u64;
@@ -845,12 +1064,18 @@ impl World {
                     if app.is_client && app.early_started && !conn.accepted_0rtt() {
                         // early data rejected: everything starts over on a fresh connection state
                         tr.push(vec![13, t, 7, c]);
-                        app.want_bidi = self_nbidi;
-                        app.want_uni = self_nuni;
+                        if no_redo {
+                            // stay connected for a while: anything left over from the early attempt
+                            // would now be sent
+                            app.hold_close_until = now_us + 300_000;
+                            new_app_wake = Some(app.hold_close_until);
+                        }
+                        app.want_bidi = if no_redo { 0 } else { self_nbidi };
+                        app.want_uni = if no_redo { 0 } else { self_nuni };
                         app.out.clear();
                         app.inp.clear();
                         app.expect_in = 0;
-                        app.dgrams_left = self_ndgram;
+                        app.dgrams_left = if no_redo { 0 } else { self_ndgram };
                         app.dgram_next = 0;
                         app.started = false;
                     }
@@ -912,8 +1137,9 @@ impl World {
                 }
             }
         }
-        let can_start = app.connected || (app.is_client && zero_rtt > 0 && conn.has_0rtt());
-        if !app.connected && can_start {
+        let can_start = app.connected || (app.is_client && zero_rtt > 0 && conn.has_0rtt()) || !app.is_client;
+        let may_open = app.connected || app.is_client || self_server_early;
+        if !app.connected && can_start && app.is_client {
             app.early_started = true;
         }
         if app.warmup {
@@ -932,8 +1158,16 @@ impl World {
             app.p_dgram_rx = dgram_rx;
             app.p_dgram_unblocked = dgram_unblocked;
         } else {
+            // delayed stop() calls (EARLY_STOP)
+            let due: Vec<StreamId> = app.pending_stops.iter().filter(|(w, _)| *w <= now_us).map(|(_, id)| *id).collect();
+            app.pending_stops.retain(|(w, _)| *w > now_us);
+            for id in due {
+                let r = conn.recv_stream(id).stop(VarInt::from_u32(88));
+                tr.push(vec![3, t, e, c, 8, u64::from(id) as i128, 88, r.is_ok() as i128]);
+                did = true;
+            }
             // open streams
-            if !app.started || avail {
+            if may_open && (!app.started || avail) {
                 app.started = true;
                 while app.want_bidi > 0 {
                     match conn.streams().open(Dir::Bi) {
@@ -941,7 +1175,15 @@ impl World {
                             app.want_bidi -= 1;
                             tr.push(vec![3, t, e, c, 1, u64::from(id) as i128, 0, 0]);
                             app.out.push(OutStream { id, total: app.stream_bytes, written: 0, finished: false, reset: false, stopped: false, fin_acked: false });
-                            app.expect_in += 1;
+                            if early_stop > 0 && app.is_client {
+                                // stop the receive half a little later (EARLY_STOP us after opening),
+                                // i.e. after the first flight left and before any reply can arrive
+                                app.pending_stops.push((now_us + early_stop - 1, id));
+                                new_app_wake = Some(now_us + early_stop - 1);
+                                app.inp.insert(u64::from(id), InStream { read: 0, done: true, ranges: Vec::new() });
+                            } else {
+                                app.expect_in += 1;
+                            }
                             writable.push(id);
                             did = true;
                         }
@@ -981,6 +1223,19 @@ impl World {
             // reads
             readable.sort();
             readable.dedup();
+            if read_serial > 0 && now_us < app.next_read_at {
+                // the slow reader is pausing between two streams
+                app.p_readable.extend_from_slice(&readable);
+                readable.clear();
+            }
+            if read_serial > 0 {
+                // only the lowest unfinished stream is read now; the rest stays pending
+                let undone: Vec<StreamId> = readable.iter().cloned().filter(|id| !app.inp.get(&u64::from(*id)).is_some_and(|i| i.done)).collect();
+                if undone.len() > 1 {
+                    app.p_readable.extend_from_slice(&undone[1..]);
+                    readable = vec![undone[0]];
+                }
+            }
             for id in readable {
                 let sid = u64::from(id);
                 let peer_salt = if app.is_client { app.salt + 500 } else { app.salt - 500 };
@@ -1012,6 +1267,10 @@ impl World {
                                     }
                                 }
                                 Ok(None) => {
+                                    if read_serial > 0 {
+                                        app.next_read_at = now_us + read_serial;
+                                        new_app_wake = Some(app.next_read_at);
+                                    }
                                     ins.done = true;
                                     tr.push(vec![3, t, e, c, 6, sid as i128, ins.read as i128, 0]);
                                     did = true;
@@ -1056,6 +1315,9 @@ impl World {
                     if reset_at > 0 && sid >> 2 == 0 && o.written >= reset_at && app.is_client {
                         let r = conn.send_stream(id).reset(VarInt::from_u32(55));
                         o.reset = true;
+                        // give the RESET_STREAM time to arrive before the connection is closed
+                        app.hold_close_until = app.hold_close_until.max(now_us + 300_000);
+                        new_app_wake = Some(app.hold_close_until);
                         tr.push(vec![3, t, e, c, 4, sid as i128, 55, r.is_ok() as i128]);
                         did = true;
                         break;
@@ -1093,10 +1355,20 @@ impl World {
                 }
             }
             // datagrams
-            if app.dgrams_left > 0 && (app.dgram_next == 0 || dgram_unblocked) {
+            let dgram_due = dgram_interval > 0 && now_us >= app.next_dgram_at;
+            if app.dgrams_left > 0 && now_us < dgram_start {
+                if !app.dgram_wake_set {
+                    app.dgram_wake_set = true;
+                    new_app_wake = Some(dgram_start);
+                }
+            } else if app.dgrams_left > 0 && (app.dgram_next == 0 || dgram_unblocked || dgram_due) {
                 while app.dgrams_left > 0 {
                     let id = app.dgram_next;
-                    let mut d = vec![0u8; dsize.max(8)];
+                    // DGRAM_ALT 1: odd ids are small; 2: the first half is a burst of large ones, the
+                    // second half small and paced
+                    let burst_phase = dgram_alt == 2 && id < dgram_total / 2;
+                    let this_size = if (dgram_alt == 1 && id % 2 == 1) || (dgram_alt == 2 && !burst_phase) { 100 } else { dsize.max(8) };
+                    let mut d = vec![0u8; this_size];
                     d[..8].copy_from_slice(&(id ^ (app.salt << 32)).to_be_bytes());
                     for i in 8..d.len() {
                         d[i] = pattern(id, i as u64, app.salt);
@@ -1105,10 +1377,17 @@ impl World {
                     let space = conn.datagrams().send_buffer_space() as i128;
                     match conn.datagrams().send(Bytes::from(d), ddrop) {
                         Ok(()) => {
-                            tr.push(vec![3, t, e, c, 9, id as i128, dsize.max(8) as i128, 0, max, space]);
+                            tr.push(vec![3, t, e, c, 9, id as i128, this_size as i128, 0, max, space]);
                             app.dgram_next += 1;
                             app.dgrams_left -= 1;
                             did = true;
+                            if dgram_interval > 0 && !burst_phase {
+                                app.next_dgram_at = now_us + dgram_interval;
+                                if app.dgrams_left > 0 {
+                                    new_app_wake = Some(new_app_wake.map_or(app.next_dgram_at, |w: u64| w.min(app.next_dgram_at)));
+                                }
+                                break;
+                            }
                         }
                         Err(err) => {
                             let code = match err {
@@ -1117,8 +1396,14 @@ impl World {
                                 quinn_proto::SendDatagramError::TooLarge => 3,
                                 quinn_proto::SendDatagramError::Blocked(_) => 4,
                             };
-                            tr.push(vec![3, t, e, c, 9, id as i128, dsize.max(8) as i128, code, max, space]);
-                            if code != 4 {
+                            tr.push(vec![3, t, e, c, 9, id as i128, this_size as i128, code, max, space]);
+                            if code == 3 && dgram_interval > 0 {
+                                // too large for the current path: skip this one, keep going later
+                                app.dgram_next += 1;
+                                app.dgrams_left -= 1;
+                                app.next_dgram_at = now_us + dgram_interval;
+                                new_app_wake = Some(app.next_dgram_at);
+                            } else if code != 4 {
                                 app.dgrams_left = 0;
                             }
                             break;
@@ -1158,6 +1443,7 @@ impl World {
                 && app.dgrams_left == 0
                 && app.connected;
             let time_close = close_at > 0 && self.now as i128 >= close_at;
+            let done = done && now_us >= app.hold_close_until;
             if i_close && ((close_at == 0 && done && (app.is_client || !app.inp.is_empty() || app.stream_bytes == 0)) || time_close) {
                 let code = if app.is_client { 42 } else { 43 };
                 conn.close(now_i, VarInt::from_u32(code), Bytes::from_static(b"bye"));
@@ -1167,6 +1453,9 @@ impl World {
             }
         }
         self.trace.extend(tr);
+        if let Some(w) = new_app_wake {
+            self.app_wakes.push(w);
+        }
         did
     }
 
@@ -1206,7 +1495,17 @@ impl World {
         self.trace[last].push(rid);
     }
 
+    fn drain_tp_log(&mut self) {
+        if let Some(sh) = &self.tp {
+            let l: Vec<_> = sh.log.lock().unwrap().drain(..).collect();
+            for (side, idx, kind, ok) in l {
+                self.trace.push(vec![13, self.now as i128, 9, side, idx, kind, ok]);
+            }
+        }
+    }
+
     fn drive_conn(&mut self, epi: usize, chk: usize) {
+        self.drain_tp_log();
         let gso = self.p.get(k::GSO, 1).max(1) as usize;
         let oidx = self.eps[epi].conns[&chk].conn_index as i128;
         let mut rounds = 0;
@@ -1308,9 +1607,12 @@ impl World {
             self.drive_conn(0, chk);
         }
         let mut migrated = 0;
+        let mut reconnect_left = self.p.get(k::RECONNECT, 0);
+        let mut replaced = 0usize;
         let mut keyupd = [false, false];
         let mut rwnd_done = false;
         let mut mtu_changed = false;
+        let mut hostile_done = false;
         let mut end_reason = 0;
         loop {
             self.steps += 1;
@@ -1326,7 +1628,14 @@ impl World {
             for pk in &self.net {
                 upd(pk.at);
             }
+            self.app_wakes.retain(|w| *w > self.now);
+            for w in &self.app_wakes {
+                upd(*w);
+            }
             for ep in &self.eps {
+                if ep.silent {
+                    continue; // a crashed endpoint has no timers any more
+                }
                 for cs in ep.conns.values() {
                     if let Some(w) = cs.wake_at {
                         upd(w);
@@ -1339,7 +1648,7 @@ impl World {
                 }
                 upd(1_000_000);
             }
-            for key in [k::MIGRATE_AT, k::MIGRATE2_AT, k::KEYUPD_C, k::KEYUPD_S, k::CLOSE_AT, k::NEW_RWND_AT, k::LINK_MTU_AT] {
+            for key in [k::MIGRATE_AT, k::MIGRATE2_AT, k::KEYUPD_C, k::KEYUPD_S, k::CLOSE_AT, k::NEW_RWND_AT, k::LINK_MTU_AT, k::HOSTILE_AT] {
                 let v = self.p.get(key, 0);
                 if v > 0 && v as u64 > self.now {
                     upd(v as u64);
@@ -1376,6 +1685,11 @@ impl World {
                     }
                     scfg.transport_config(Arc::new(tcfg));
                     scfg.token_key(quinn_proto_token_key(self.p.get(k::SEED, 1) as u64));
+                    scfg.migration(self.p.get(k::MIGRATION_ALLOWED, 1) != 0);
+                    scfg.time_source(Arc::new(SimTime {
+                        base: std::time::UNIX_EPOCH + Duration::from_secs(1_700_000_000),
+                        now_us: self.now_shared.clone(),
+                    }));
                     self.eps[1].ep.set_server_config(Some(Arc::new(scfg)));
                 }
                 self.trace.push(vec![13, self.now as i128, 6, zero_rtt]);
@@ -1431,6 +1745,22 @@ impl World {
                 self.link_mtu = self.p.get(k::LINK_MTU2, 1500) as usize;
                 self.trace.push(vec![13, self.now as i128, 4, self.link_mtu as i128]);
             }
+            let h_at = self.p.get(k::HOSTILE_AT, 0);
+            if h_at > 0 && !hostile_done && self.now as i128 >= h_at {
+                hostile_done = true;
+                let side = self.p.get(k::HOSTILE_SIDE, 0).clamp(0, 1) as usize;
+                let kind = self.p.get(k::HOSTILE_KIND, 1);
+                let max_uni = self.p.get(k::MAX_UNI, 100) as u64;
+                if let Some((&chk, _)) = self.eps[side].conns.iter().next() {
+                    let (space, bytes) = hostile_frames(kind, side, max_uni, &mut self.rng);
+                    let idx = self.eps[side].conns[&chk].conn_index as i128;
+                    let ok = self.eps[side].conns.get_mut(&chk).unwrap().conn.verif_inject_frames(space, bytes);
+                    self.trace.push(vec![13, self.now as i128, 8, side as i128, idx, kind, ok as i128]);
+                    if ok {
+                        self.drive_conn(side, chk);
+                    }
+                }
+            }
             self.attacker_inject();
             self.deliver_due();
             // timeouts + drive
@@ -1462,7 +1792,18 @@ impl World {
                 }
             }
             self.poke_zombies();
+            // slot reuse: a drained client connection is replaced by a fresh one
+            if reconnect_left > 0 && self.eps[0].zombies.len() > replaced && !self.eps[0].silent {
+                replaced += 1;
+                reconnect_left -= 1;
+                self.connect_client(false);
+                let keys: Vec<usize> = self.eps[0].conns.keys().cloned().collect();
+                if let Some(chk) = keys.last() {
+                    self.drive_conn(0, *chk);
+                }
+            }
         }
+        self.drain_tp_log();
         // final summary per connection (live or zombie)
         let t = self.now as i128;
         for epi in 0..2 {
@@ -1471,14 +1812,14 @@ impl World {
                 self.probe(epi, chk, None);
                 let cs = &self.eps[epi].conns[&chk];
                 let a = &cs.app;
-                let done_out = a.out.iter().filter(|o| o.fin_acked).count() as i128;
+                let done_out = a.out.iter().filter(|o| o.fin_acked || o.reset || o.stopped).count() as i128;
                 let done_in = a.inp.values().filter(|i| i.done).count() as i128;
                 self.trace.push(vec![14, t, epi as i128, chk as i128, cs.conn_index as i128, a.connected as i128, a.lost as i128, a.closed_local as i128, a.out.len() as i128, done_out, a.inp.len() as i128, done_in, 0]);
             }
             for z in 0..self.eps[epi].zombies.len() {
                 let cs = &self.eps[epi].zombies[z];
                 let a = &cs.app;
-                let done_out = a.out.iter().filter(|o| o.fin_acked).count() as i128;
+                let done_out = a.out.iter().filter(|o| o.fin_acked || o.reset || o.stopped).count() as i128;
                 let done_in = a.inp.values().filter(|i| i.done).count() as i128;
                 self.trace.push(vec![14, t, epi as i128, -1, cs.conn_index as i128, a.connected as i128, a.lost as i128, a.closed_local as i128, a.out.len() as i128, done_out, a.inp.len() as i128, done_in, 1]);
             }
@@ -1515,6 +1856,168 @@ fn quinn_proto_token_key(seed: u64) -> Arc<dyn quinn_proto::crypto::HandshakeTok
         *b = (seed >> (i % 8)) as u8 ^ (i as u8).wrapping_mul(13);
     }
     Arc::new(ring::hkdf::Salt::new(ring::hkdf::HKDF_SHA256, &[]).extract(&ikm))
+}
+
+fn put_var(b: &mut Vec<u8>, x: u64) {
+    if x < 1 << 6 {
+        b.push(x as u8);
+    } else if x < 1 << 14 {
+        b.extend_from_slice(&((x as u16) | 0x4000).to_be_bytes());
+    } else if x < 1 << 30 {
+        b.extend_from_slice(&((x as u32) | 0x8000_0000).to_be_bytes());
+    } else {
+        b.extend_from_slice(&(x | 0xC000_0000_0000_0000).to_be_bytes());
+    }
+}
+
+/// Catalogue of hostile-but-authenticated frame sequences (C03/C06). `side` is the misbehaving
+/// endpoint (0 client, 1 server); stream ids are chosen relative to it. Returns (space, bytes).
+/// The prescribed outcome of each kind is tabled in coq/Sys/MonC03.v.
+fn hostile_frames(kind: i128, side: usize, max_uni: u64, rng: &mut Rng) -> (u8, Vec<u8>) {
+    let me = side as u64; // initiator bit of streams I open
+    let peer = 1 - me;
+    let my_uni0 = 2 + me; // my first uni stream
+    let peer_uni0 = 2 + peer;
+    // a stream of mine the application never opens (index 5): cannot already be closed
+    let fresh = my_uni0 + 4 * 5;
+    let mut b = Vec::new();
+    let stream = |b: &mut Vec<u8>, id: u64, off: u64, len: usize, fin: bool| {
+        b.push(0x08 | 0x04 | 0x02 | fin as u8);
+        put_var(b, id);
+        put_var(b, off);
+        put_var(b, len as u64);
+        b.extend(std::iter::repeat(0xAB).take(len));
+    };
+    match kind {
+        1 => stream(&mut b, my_uni0 + 4 * (max_uni + 50), 0, 3, false),
+        2 => stream(&mut b, fresh, 1 << 40, 1, false),
+        3 => stream(&mut b, fresh, (1 << 62) - 2, 10, false),
+        4 => {
+            b.push(0x04);
+            put_var(&mut b, fresh);
+            put_var(&mut b, 7);
+            put_var(&mut b, 1 << 40);
+        }
+        5 => stream(&mut b, peer_uni0, 0, 3, false),
+        6 => {
+            b.push(0x11);
+            put_var(&mut b, my_uni0);
+            put_var(&mut b, 1 << 20);
+        }
+        7 => {
+            b.push(0x05);
+            put_var(&mut b, peer + 4 * 1000);
+            put_var(&mut b, 9);
+        }
+        8 => {
+            b.push(0x02);
+            put_var(&mut b, 1 << 30);
+            put_var(&mut b, 0);
+            put_var(&mut b, 0);
+            put_var(&mut b, 0);
+        }
+        9 => {
+            b.push(0x18);
+            put_var(&mut b, 3);
+            put_var(&mut b, 5);
+            b.push(8);
+            b.extend_from_slice(&[9; 8]);
+            b.extend_from_slice(&[7; 16]);
+        }
+        10 => {
+            b.push(0x18);
+            put_var(&mut b, 1000);
+            put_var(&mut b, 0);
+            b.push(8);
+            b.extend_from_slice(&[8; 8]);
+            b.extend_from_slice(&[6; 16]);
+        }
+        11 => {
+            b.push(0x19);
+            put_var(&mut b, 1000);
+        }
+        12 => b.push(0x1e),
+        13 => {
+            b.push(0x07);
+            put_var(&mut b, 4);
+            b.extend_from_slice(&[1, 2, 3, 4]);
+        }
+        14 => {
+            b.push(0x07);
+            put_var(&mut b, 0);
+        }
+        15 => {
+            b.push(0x06);
+            put_var(&mut b, 1 << 30);
+            put_var(&mut b, 1);
+            b.push(0);
+        }
+        16 => {
+            b.push(0x31);
+            put_var(&mut b, 300);
+            b.extend(std::iter::repeat(0x5A).take(300));
+        }
+        17 => {
+            put_var(&mut b, 0x3f);
+            b.extend_from_slice(&[0; 4]);
+        }
+        18 => {
+            b.push(0x12);
+            put_var(&mut b, (1 << 60) + 1);
+        }
+        19 => {
+            stream(&mut b, fresh, 0, 5, true);
+            stream(&mut b, fresh, 10, 1, false);
+        }
+        20 => {
+            for fs in [5u64, 9] {
+                b.push(0x04);
+                put_var(&mut b, fresh);
+                put_var(&mut b, 7);
+                put_var(&mut b, fs);
+            }
+        }
+        21 => {
+            b.push(0x1b);
+            b.extend_from_slice(&rng.next().to_be_bytes());
+        }
+        22 => b.extend_from_slice(&[0x01, 0x00, 0x00, 0x01]),
+        23 => {
+            let n = 4 + rng.below(40) as usize;
+            for _ in 0..n {
+                b.push(rng.below(256) as u8);
+            }
+        }
+        24 => {
+            b.push(0x08 | 0x02);
+            put_var(&mut b, my_uni0);
+            put_var(&mut b, 5000);
+            b.extend_from_slice(&[1, 2, 3]);
+        }
+        25 => {
+            b.push(0x10);
+            put_var(&mut b, 1);
+        }
+        26 => {
+            b.push(0x16);
+            put_var(&mut b, (1 << 60) + 1);
+        }
+        27 => {
+            b.push(0x02);
+            put_var(&mut b, 3);
+            put_var(&mut b, 0);
+            put_var(&mut b, 0);
+            put_var(&mut b, 9);
+        }
+        28 => {
+            b.push(0x1c);
+            put_var(&mut b, 1);
+            put_var(&mut b, 0);
+            put_var(&mut b, 0);
+        }
+        _ => b.push(0x01),
+    }
+    (2, b)
 }
 
 /// Cleartext classification of a datagram: bit0 long header present, bit1 contains an Initial,
